@@ -296,6 +296,48 @@ def run(ctx):
         if n < 6:
             raise AnchorMissing("take-and-restore decoders: expected at least 6 `Ok(None)` exits from non-initial states (CommandDecoder), found %d" % n)
 
+    with ctx.rule("C14.R13", "T2", "commands written by a handler are handed to the command writer before the agent task ends", floor=3) as r:
+        # Handlers write ad hoc commands into `command_buffer`; check_cmds / CommandWriter::write move the buffer to the command channel. A command
+        # is `forwarded once` only if that hand-over happens on every path that leaves the handler - including the paths that stop the agent.
+        ag = ctx.crate("swimos_agent")
+        ra = [x for x in ag.all_bodies() if x.defpath.endswith("AgentTask::<ItemModel, Lifecycle>::run_agent::{closure#0}")]
+        if len(ra) != 1:
+            raise AnchorMissing("AgentTask::run_agent coroutine")
+        ra = ctx.saw(ra[0])
+        rh = sorted([c for c in ra.calls if c.name == "run_handler"], key=lambda c: c.block)
+        hand = {c.block for c in ra.calls if c.name == "check_cmds"} | {c.block for c in ra.calls if c.name == "write" and "CommandWriter" in ((c.self_adt or "") + (c.defpath or ""))}
+        if len(rh) < 6 or not hand:
+            raise AnchorMissing("run_agent: expected the handler executions and the check_cmds hand-overs (found %d / %d)" % (len(rh), len(hand)))
+        in_loop = [c for c in rh if any(ra.dominates(h, c.block) and h != c.block and ra.reaches(c.block, {h}) for h in range(ra.n))]
+        after = [c for c in rh if c not in in_loop]
+        def ok_edge(c):
+            for si in ra.result_switches(c):
+                ve = ra.variant_edges(si["block"]) or {}
+                if "Ok" in ve:
+                    return ve["Ok"]
+            return None
+        # (a) a handler that returns normally inside the loop: the buffer is handed over before the next event is awaited
+        bad = []
+        for c in in_loop:
+            t = ok_edge(c)
+            heads = {h for h in range(ra.n) if ra.dominates(h, c.block) and h != c.block and ra.reaches(c.block, {h})}
+            if t is None or not ra.must_pass([t], hand, targets=set(ra.exits()) | heads)[0]:
+                bad.append(c.line)
+        r.check(not bad, "run_agent/handler-completes/commands-handed-over", where(ra), "%d handler executions in the event loop are followed by check_cmds" % len(in_loop),
+                "after the handler executions at lines %s the command buffer is not handed to the writer: commands they sent wait for an unrelated later event" % bad)
+        # (b) a handler that stops the agent (StopInstructed): its commands are still handed over
+        stops = [si for si in ra.switches_on(lambda p_, si: True) if si.get("kind") == "disc" and (si.get("adt") or "").endswith("EventHandlerError") and "StopInstructed" in (ra.variant_edges(si["block"]) or {})]
+        lost = [si["block"] for si in stops if any(ra.dominates(c.block, si["block"]) for c in in_loop) and ra.path_avoiding([ra.variant_edges(si["block"])["StopInstructed"]], set(ra.exits()), avoid=hand) is not None]
+        r.check(not lost, "run_agent/handler-stops-the-agent/commands-handed-over", where(ra), "a handler that ends with StopInstructed has its commands handed over first",
+                "%d of %d handler executions leave through StopInstructed without check_cmds: a handler that sends a command and then stops the agent loses that command" % (len(lost), len(stops)))
+        # (c) on_stop (the handler executed after the loop) and whatever is still queued or in flight when the loop ends
+        for c in after:
+            t = ok_edge(c)
+            r.check(t is not None and ra.must_pass([t], hand, targets=set(ra.exits()))[0], "run_agent/on_stop/commands-handed-over", c.loc(), "the commands of the handler run after the loop are handed to the writer",
+                    "run_agent returns after the on_stop handler without handing command_buffer to the writer: commands sent from on_stop - and any command still queued behind or cut by an in-flight write when the loop ended - are never forwarded")
+        if not after:
+            raise AnchorMissing("run_agent: no handler execution after the event loop (on_stop)")
+
 
 def _assign_operand(body, block, suffix):
     for i, j, p, rv, line in body.assigns():
